@@ -148,7 +148,7 @@ func runScript(sc rulebed.Script, mode string) ([]rulebed.Event, error) {
 		defer up.Close()
 	}
 
-	bed, err := rulebed.Start(mode, sc.Default, sc.DefBt, up)
+	bed, err := rulebed.StartDebug(mode, sc.Default, sc.DefBt, up, sc.Debug)
 	if err != nil {
 		return nil, err
 	}
@@ -156,6 +156,7 @@ func runScript(sc rulebed.Script, mode string) ([]rulebed.Event, error) {
 
 	evs := []rulebed.Event{{
 		Ev: "reset", Trace: sc.Trace, Default: sc.Default, DefBt: sc.DefBt, Rules: []rulebed.Rule{}, Caps: [][2]string{}, Mode: mode,
+		Debug: sc.Debug,
 	}}
 
 	for _, st := range sc.Steps {
@@ -244,7 +245,7 @@ func replayRules(path, out string) error {
 				up = client.NewUpstream()
 			}
 
-			if bed, err = rulebed.Start(mode, ev.Default, ev.DefBt, up); err != nil {
+			if bed, err = rulebed.StartDebug(mode, ev.Default, ev.DefBt, up, ev.Debug); err != nil {
 				return err
 			}
 
